@@ -333,6 +333,43 @@ def main():
                     if dev5 > 1e-12:
                         ctx.violation("segment_functions:%s:differ_from_whole_grid_functions" % kind, "%s: a function of the untruncated segment space differs from the whole-grid %s function of its coarse edge by %.3e"
                                       % (cid, kind, dev5), cid)
+    # ---------------------------------------------------------------- (6) the dual / BC functions do not depend on the numbering of the grid
+    # The same surface with vertices and elements renumbered and local vertex orders rotated must carry the same functions
+    # (each function of one space is +- a function of the other), in particular at borders, where the two poles of a BC
+    # function are treated by different code depending on which comes first.
+    from checks.C03 import signed_permutation
+    worst["renumbering"] = 0.0
+    for mname, mesh, closed in pool[: (4 if ctx.quick else len(pool))]:
+        if mesh.ne > 40:
+            continue
+        rng6 = ctx.rng("renumber", mname)
+        m2 = M.rotate_local(M.permute_elements(M.permute_vertices(mesh, rng6.permutation(mesh.nv)), rng6.permutation(mesh.ne)), rng6.integers(0, 3, size=mesh.ne))
+        gA, gB = M.to_grid(mesh), M.to_grid(m2)
+        (_, bmA), (_, bmB) = bary_mesh_of(M, gA), bary_mesh_of(M, gB)
+        bc_ = np.array([[1 / 3, 0.2, 0.55], [1 / 3, 0.7, 0.15]])
+        Xb = np.hstack([bmA.V[:, bmA.E[0, e]][:, None] + np.column_stack([bmA.V[:, bmA.E[1, e]] - bmA.V[:, bmA.E[0, e]],
+                                                                          bmA.V[:, bmA.E[2, e]] - bmA.V[:, bmA.E[0, e]]]) @ bc_ for e in range(bmA.ne)])
+        wA, wB = locate(bmA, Xb), locate(bmB, Xb)
+        doms6 = sorted(set(mesh.D.tolist()))
+        optlist = [{}] + ([{"segments": [int(doms6[0])]}] if len(doms6) >= 2 else [])
+        for kind in ("BC", "RBC", "DUAL0", "DUAL1"):
+            for o6 in optlist:
+                cid = "renumbering:%s:%s:%s" % (mname, kind, S.opts_key(o6))
+                if not ctx.want(cid):
+                    continue
+                with ctx.guard(cid, "renumbering:%s" % kind, allow=S.ALLOWED_REJECTIONS):
+                    exp6 = S.expected_entities(S.Topo(mesh.V, mesh.E), mesh.D, *KA[kind], o6)
+                    if exp6 is None or not exp6[1]:
+                        continue
+                    sa, sb = S.make_space(api, gA, *KA[kind], **o6), S.make_space(api, gB, *KA[kind], **o6)
+                    if sa.grid.number_of_elements != bmA.ne:
+                        continue
+                    _, defect, okp = signed_permutation(basis_matrix(sa, wA), basis_matrix(sb, wB))
+                    worst["renumbering"] = max(worst["renumbering"], defect if np.isfinite(defect) else 0.0)
+                    ctx.case(cid, {"mesh": mesh.describe(), "space": kind, "opts": S.opts_key(o6), "dofs": int(sa.global_dof_count), "defect": defect, "signed_permutation": okp})
+                    if not okp or defect > 1e-9 or sa.global_dof_count != sb.global_dof_count:
+                        ctx.violation("renumbering:%s:functions_depend_on_numbering" % kind, "%s: the functions on the renumbered grid are not +- the functions on the grid (defect %.3e, %d vs %d dofs)"
+                                      % (cid, defect, sa.global_dof_count, sb.global_dof_count), cid)
     ctx.note("worst", worst)
     ctx.note("vertex_valences_seen", sorted(valences))
     partial = ctx.only_case is not None or bool(ctx.args.only)
